@@ -8,7 +8,6 @@ import (
 	"fmt"
 	"go/types"
 	"os"
-	"path"
 	"path/filepath"
 	"sort"
 	"strings"
@@ -213,8 +212,7 @@ func resolveItems(prog *Program, cs *ContractSet, patterns []string, all map[str
 	for _, pat := range patterns {
 		found := false
 		for _, k := range keys {
-			ok, _ := path.Match(pat, k)
-			if !ok && pat != k {
+			if !matchKey(pat, k) {
 				continue
 			}
 			for _, fn := range all[k] {
